@@ -123,6 +123,8 @@ struct GC {
   bool running;
   uintptr_t freenum;
   var* freelist;
+  uintptr_t marknum;
+  var* marklist;
 };
 
 static uint64_t GC_Probe(struct GC* gc, uint64_t i, uint64_t h) {
@@ -331,8 +333,11 @@ static void GC_Mark_Item(void* _gc, void* ptr) {
     if (h is 0 or j > GC_Probe(gc, i, h)) { return; }
     
     if (gc->entries[i].ptr is ptr and not gc->entries[i].marked) {
+      /* Traced later from the pending list, not by recursion, so that the
+      ** depth of the C stack does not grow with the length of object chains */
       gc->entries[i].marked = true;
-      GC_Recurse(gc, gc->entries[i].ptr);
+      gc->marklist[gc->marknum] = ptr;
+      gc->marknum++;
       return;
     }
     
@@ -369,6 +374,17 @@ void GC_Mark(struct GC* gc) {
   
   if (gc is NULL or gc->nitems is 0) { return; }
   
+  /* Each entry is appended at most once per collection */
+  gc->marklist = malloc(sizeof(var) * gc->nitems);
+  gc->marknum = 0;
+  
+#if CELLO_MEMORY_CHECK == 1
+  if (gc->marklist is NULL) {
+    throw(OutOfMemoryError, "Cannot allocate GC Mark List, out of memory!");
+    return;
+  }
+#endif
+  
   /* Mark Thread Local Storage */
   mark(current(Thread), gc, (void(*)(var,void*))GC_Mark_And_Recurse);
   
@@ -398,6 +414,15 @@ void GC_Mark(struct GC* gc) {
   
   /* Mark Stack */
   mark_stack(gc);
+  
+  /* Trace everything reached so far */
+  while (gc->marknum > 0) {
+    gc->marknum--;
+    GC_Recurse(gc, gc->marklist[gc->marknum]);
+  }
+  
+  free(gc->marklist);
+  gc->marklist = NULL;
   
 }
 
